@@ -41,6 +41,23 @@ class CFGNode:
 
 Dangling = List[Tuple[CFGNode, object]]  # (node, label)
 
+_SAFE_CALLS = {"isinstance", "len", "cast", "id", "type", "bool", "set", "dict", "list", "tuple", "frozenset"}
+
+
+def _may_raise(s: ast.AST) -> bool:
+    """Implicit exceptions are modelled only for statements that contain a call (other than a few builtins
+    that cannot fail on well-typed arguments)."""
+    if isinstance(s, (ast.FunctionDef, ast.AsyncFunctionDef, ast.ClassDef)):
+        return False
+    if isinstance(s, (ast.With, ast.AsyncWith)):
+        return True
+    for n in ast.walk(s):
+        if isinstance(n, ast.Call):
+            if isinstance(n.func, ast.Name) and n.func.id in _SAFE_CALLS:
+                continue
+            return True
+    return False
+
 
 @dataclass
 class _Ctx:
@@ -116,7 +133,7 @@ class CFG:
     def _simple(self, kind: str, s: ast.AST, preds: Dangling, ctx: _Ctx, owner: Optional[ast.AST] = None) -> CFGNode:
         n = self._new(kind, s, owner)
         self._connect(preds, n)
-        if ctx.trys or self.implicit_raise:
+        if ctx.trys or (self.implicit_raise and _may_raise(s)):
             self._exc_targets(ctx, n, explicit=False)
         return n
 
